@@ -242,6 +242,38 @@ Close Scope string_scope.
 (* ------------------------------------------------------------------------------------------ *)
 (* DictProxy                                                                                    *)
 (* ------------------------------------------------------------------------------------------ *)
+(* Signature binding of `def update(self, iterable=None, **kwargs)`: the method is not
+   positional-only, so the keyword names "self" and "iterable" never reach **kwargs (open finding
+   F51; dict.update is positional-only and stores them). *)
+Definition kw_self : str := sa "self".
+Definition kw_iterable : str := sa "iterable".
+Fixpoint kw_get (name : str) (kw : pairs) : option pyval :=
+  match kw with
+  | [] => None
+  | (k, v) :: r => if pyval_eqb k (PStr name) then Some v else kw_get name r
+  end.
+Definition kw_has (name : str) (kw : pairs) : bool :=
+  match kw_get name kw with Some _ => true | None => false end.
+Definition kw_remove (name : str) (kw : pairs) : pairs :=
+  filter (fun kv => negb (pyval_eqb (fst kv) (PStr name))) kw.
+
+(* region of the open finding F51 *)
+Definition kw_clash (op : dop) : bool :=
+  match op with
+  | DUpdate _ kw => kw_has kw_self kw || kw_has kw_iterable kw
+  | _ => false
+  end.
+
+Definition py_truthy (v : pyval) : bool :=
+  match v with
+  | PNone => false
+  | PBool b => b
+  | PInt z => negb (z =? 0)
+  | PFloat f => match f with S754_zero _ => false | _ => true end
+  | PStr s => match s with [] => false | _ => true end
+  | _ => true
+  end.
+
 Definition lift_p {A} (o : res A) (v : pyval) : res pyval :=
   match o with Ok _ => Ok v | Err e => Err e | Unmodelled => Unmodelled end.
 
@@ -302,6 +334,25 @@ Section DProxy.
     | (s1, o) => (s1, o)
     end.
 
+  (* the call `p.update([src], **kw)` as Python binds it to (self, iterable=None, **kwargs) *)
+  Definition p_update_call (s : pairs) (src : dsource) (kw : pairs) : pairs * res unit :=
+    if kw_has kw_self kw then (s, Err EType)              (* multiple values for argument 'self' *)
+    else match kw_get kw_iterable kw with
+         | None => p_update s src kw
+         | Some v =>
+             match src with
+             | DSNone =>                                   (* the keyword value *is* the iterable *)
+                 if py_truthy v then
+                   match v with
+                   | PInt _ | PBool _ | PFloat _ => (s, Err EType)    (* list(number) *)
+                   | PStr _ => (s, Err EValue)                        (* `for key, value in` a character *)
+                   | _ => (s, Unmodelled)
+                   end
+                 else kwloop s (kw_remove kw_iterable kw)             (* `if iterable:` is false: ignored *)
+             | _ => (s, Err EType)                         (* multiple values for argument 'iterable' *)
+             end
+         end.
+
   (* DictProxy.__init__(cfg, field, iterable) for a dict / proxy argument *)
   Definition dp_init (same_field : bool) (items : pairs) : res pairs :=
     if same_field then Ok items
@@ -319,7 +370,7 @@ Section DProxy.
         | Unmodelled => (s, Unmodelled)
         end
     | DUpdate src kw =>
-        match p_update s src kw with (s', o) => (s', lift_p o PNone) end
+        match p_update_call s src kw with (s', o) => (s', lift_p o PNone) end
     | DIOr src =>                      (* self.update(other); return self *)
         match p_update s src [] with (s', o) => (s', lift_p o self_marker) end
     | DSetDefault k v =>               (* validate (value defaults to None), then super().setdefault *)
